@@ -60,5 +60,131 @@ def mentionsTVO : Option Ty → Bool
   | some x => mentionsTV x
 end
 
+/-! ## Well-scopedness, well-formedness and consistency (hypotheses of the C07 theorems) -/
+
+mutual
+/-- every type variable that `substS` can reach in the type — in arguments, wildcard bounds and
+    (through the constructors of nested instantiations) in the declared supertypes of the
+    classes involved — is `==` to a member of `ps` resp. to a parameter of the class that
+    declares the supertype; no bare type constructor occurs as a type; every instantiation
+    has at least as many arguments as its constructor has parameters (Python asserts
+    equality); supertypes that are not parameterized (and are therefore never touched by
+    instantiation) mention no type variable at all -/
+def tvarsWithin (ps : List Ty) : Ty → Bool
+  | builtin _ _ _ _ ss => !mentionsTVL ss
+  | simple _ ss => !mentionsTVL ss
+  | tparam nm v b => memBeq (tparam nm v b) ps
+  | wild _ b => tvarsWithinO ps b
+  | tcon .. => false
+  | param _ con args _ =>
+      tvarsWithinL ps args && closedCon con && decide ((conParams con).length ≤ args.length)
+  | nothing => true
+  | ext _ => true
+termination_by structural t => t
+def tvarsWithinL (ps : List Ty) : List Ty → Bool
+  | [] => true
+  | x :: xs => tvarsWithin ps x && tvarsWithinL ps xs
+termination_by structural t => t
+def tvarsWithinO (ps : List Ty) : Option Ty → Bool
+  | none => true
+  | some x => tvarsWithin ps x
+termination_by structural t => t
+/-- a class declaration whose supertypes only mention the class's own type parameters
+    (and so on up the hierarchy) -/
+def closedCon : Ty → Bool
+  | tcon _ _ cps css => supsWithin cps css
+  | _ => true
+termination_by structural t => t
+def supsWithin (cps : List Ty) : List Ty → Bool
+  | [] => true
+  | param nm con args ss :: rest => tvarsWithin cps (param nm con args ss) && supsWithin cps rest
+  | t :: rest => !mentionsTV t && supsWithin cps rest
+termination_by structural t => t
+end
+
+/-- `t.t_constructor` / `t.type_args` of an instantiation -/
+def conOf : Ty → Ty | param _ c _ _ => c | t => t
+def argsOf : Ty → List Ty | param _ _ as _ => as | _ => []
+
+/-- `SuperInst c as c' as'`: going by the class declarations alone, the instance `c'<as'>` lies
+    above the instance `c<as>` (reflexive-transitive): if `c'` declares the supertype `c''<bs>`
+    then `c''<bs[parameters of c' ↦ as']>` lies above as well -/
+inductive SuperInst (c : Ty) (as : List Ty) : Ty → List Ty → Prop
+  | refl : SuperInst c as c as
+  | step {c' : Ty} {as' : List Ty} {nm : String} {c'' : Ty} {bs ss : List Ty} :
+      SuperInst c as c' as' → param nm c'' bs ss ∈ conSups c' →
+      SuperInst c as c'' (substSL (TMap.mk (conParams c') as') bs)
+
+/-- the map binds every type variable that is `==` to a member of `ps` -/
+def TMap.covers (σ : TMap) (ps : List Ty) : Prop :=
+  ∀ x, memBeq x ps = true → (σ.get x).isSome = true
+
+/-- forget the supertypes list recorded in a (copied) constructor -/
+def stripCon : Ty → Ty
+  | tcon cls nm ps _ => tcon cls nm ps []
+  | t => t
+
+mutual
+/-- the type with the supertypes lists recorded inside the copied constructors of all its
+    instantiation nodes forgotten (`==` never reads them) -/
+def strip : Ty → Ty
+  | tparam nm v b => tparam nm v (stripO b)
+  | wild v b => wild v (stripO b)
+  | param nm con args ss => param nm (stripCon con) (stripL args) (stripL ss)
+  | t => t
+termination_by structural t => t
+def stripL : List Ty → List Ty
+  | [] => []
+  | x :: xs => strip x :: stripL xs
+termination_by structural t => t
+def stripO : Option Ty → Option Ty
+  | none => none
+  | some x => some (strip x)
+termination_by structural t => t
+end
+
+mutual
+/-- every instantiation node that `==` looks at has a type constructor as its constructor
+    (otherwise `ParameterizedType.__eq__` is not even reflexive in the model) -/
+def wf : Ty → Bool
+  | simple _ ss => wfL ss
+  | tparam _ _ b => wfO b
+  | wild _ b => wfO b
+  | param _ con args ss =>
+      wfL ss && wfL args && (match con with | tcon _ _ ps _ => wfL ps | _ => false)
+  | _ => true
+termination_by structural t => t
+def wfL : List Ty → Bool
+  | [] => true
+  | x :: xs => wf x && wfL xs
+termination_by structural t => t
+def wfO : Option Ty → Bool
+  | none => true
+  | some x => wf x
+termination_by structural t => t
+end
+
+mutual
+/-- the supertypes stored in every instantiation node (reachable through arguments and bounds)
+    are what instantiating its constructor at its arguments computes, up to the supertypes
+    lists recorded in copied constructors; the node's name is its constructor's name -/
+def Consistent : Ty → Prop
+  | tparam _ _ b => ConsistentO b
+  | wild _ b => ConsistentO b
+  | param nm con args ss =>
+      nm = conName con ∧ ConsistentL args ∧
+      stripL (performSubstL (conSups con) (TMap.mk (conParams con) args)) = stripL ss
+  | _ => True
+termination_by structural t => t
+def ConsistentL : List Ty → Prop
+  | [] => True
+  | x :: xs => Consistent x ∧ ConsistentL xs
+termination_by structural t => t
+def ConsistentO : Option Ty → Prop
+  | none => True
+  | some x => Consistent x
+termination_by structural t => t
+end
+
 end Ty
 end Heph
